@@ -218,8 +218,9 @@ def part(pid, tier, out, cov, runs=None, extra=None):
 
 # design level: MC_Cloud.tla closes Cloud.tla's functions with an environment; invariants grouped by property
 DESIGN_INVARIANTS = {
+    "C05": (["NodeInvariants", "RecoversBy"], []),
     "C12": (["NodeInvariants", "ClaimsAreLastAnnouncement"], []),
-    "C14": (["NodeInvariants", "OwnNeverDialled", "FullMeshBy"], []),
+    "C14": (["NodeInvariants", "OwnNeverDialled", "FullMeshBy", "RecoversBy"], []),
     "C15": (["NodeInvariants", "SilentTimedOut"], ["HealthyNeverTimedOut"]),
 }
 DESIGN_CONFIGS = {   # name: (N, MaxTime, faulty node, fault kind, dial kind, thorough only)
@@ -230,7 +231,7 @@ DESIGN_CONFIGS = {   # name: (N, MaxTime, faulty node, fault kind, dial kind, th
     "3restart1": (3, 12, 1, "restart", "connect", False),
     "4silent": (4, 12, 3, "silent", "reconnect", True),
     "4restart": (4, 14, 1, "restart", "reconnect", True),
-    "3lossy": (3, 10, 0, "lossy", "reconnect", True),
+    "3lossy": (3, 17, 0, "lossy", "reconnect", False),
 }
 
 
